@@ -12,6 +12,7 @@ import (
 var (
 	regFullSystemPolicy = util.ToRegexRepl([]string{
 		`r(PU|U)x,`, `rPx,`,
+		`r(pu|u)x,`, `rpx,`,
 	})
 )
 
